@@ -128,14 +128,27 @@ def run(ctx):
                                                                            "offset", "add", "sub") and "ptr" in name
             if suspicious:
                 u1.check(ls in UNSAFE_EXT_MODELLED, "ext " + name, "unsafe std callee %s has no model [%s]" % (name, cfg), what=name + " [" + cfg + "]")
-        # U4: where does pointer arithmetic happen
+        # U4: where does pointer arithmetic happen - in the magic lookups, or in an unsafe helper that only they call (its body is
+        # then part of the formula C15/T3 compares)
+        callers = {}
+        for fid in local:
+            for bi, t in facts.fns[fid].body.calls():
+                tgt = t["f"].get("inst")
+                if tgt in facts.fns:
+                    callers.setdefault(facts.fns[tgt].def_path, set()).add(facts.fns[fid].def_path)
+
+        def magic_only(fn):
+            if fn.def_path in MAGIC_FNS:
+                return True
+            cs = callers.get(fn.def_path, set())
+            return fn.safety == "Unsafe" and bool(cs) and all(c in MAGIC_FNS for c in cs)
         for fid in local:
             fn = facts.fns[fid]
             for bi, t in fn.body.calls():
                 f = t["f"]
                 base = f.get("base") or ""
                 if f.get("ext") and "::ptr::" in base and last_seg(base) in ("add", "offset", "sub", "byte_add"):
-                    u4.check(fn.def_path in MAGIC_FNS, "ptr " + fn.def_path, "raw pointer arithmetic outside the magic lookups: %s in %s [%s]"
+                    u4.check(magic_only(fn), "ptr " + fn.def_path, "raw pointer arithmetic outside the magic lookups: %s in %s [%s]"
                              % (base, fn.def_path, cfg), ctx.site(fn, bi), what="%s in %s [%s]" % (last_seg(base), fn.def_path, cfg))
         # U5 / U6
         creators = set()
